@@ -562,20 +562,20 @@ def main(ctx):
 
     # ---------------------------------------------------------------- 1-3. regenerate, build, audit
     regen_ok = ctx.regen()
-    ok, errs = ctx.lake_build(["GojaModel.C05.Props", "GojaModel.C05.Tie", "GojaModel.C05.DecTie", "model_c05"])
+    ok, errs = ctx.lake_build(["GojaModel.C05.Props", "GojaModel.C05.Tie", "GojaModel.C05.DecTie", "GojaModel.C05.DecTie2", "GojaModel.C05.DecTie3", "model_c05"])
     if regen_ok:
         ctx.obligation("tie:C05_NumSites+C05_Shapes regenerated", "tie", True, "; ".join(ctx.stats.get("extract", [])))
     t_build = time.time() - ctx.t0
-    names = ctx.audit("GojaModel.C05.Props", expect_min=76)
+    names = ctx.audit("GojaModel.C05.Props", expect_min=89)
     tie_errs = [e for e in errs if os.path.basename(e["file"]) == "Tie.lean" or "Generated" in e["file"]]
     tie_bad = {e["decl"] for e in tie_errs}
-    dec_errs = [e for e in errs if os.path.basename(e["file"]) in ("DecTie.lean", "C05_Decisions.lean", "GenPrelude.lean")]
+    dec_errs = [e for e in errs if os.path.basename(e["file"]) in ("DecTie.lean", "DecTie2.lean", "DecTie3.lean", "C05_Decisions.lean", "GenPrelude.lean")]
     dec_bad = {e["decl"] for e in dec_errs}
     for t in ("floatToInt_tie", "intToValue_tie", "floatToValue_tie", "floatToIntClip_tie", "toLength_tie", "toIndex_tie", "float64ToInt64Mod_tie", "intCache_tie",
               "mulNegZeroGuard_tie", "mulFitsGuard_tie", "modGuards_tie", "parseIntGuards_tie",
-              "sameAs_tie", "strictEquals_tie", "hash_tie", "normKey_tie", "toIntN_tie", "radixPrefix_tie", "stringToInt_tie"):
+              "sameAs_tie", "strictEquals_tie", "hash_tie", "normKey_tie", "toIntN_tie", "radixPrefix_tie", "stringToInt_tie", "toLengthUint32_tie", "equals_tie", "toUint8Clamp_tie"):
         # translated Go decision function = hand model, for all inputs (DecTie.lean); checked by the lake build above
-        if regen_ok and t not in dec_bad and not any(os.path.basename(e["file"]) != "DecTie.lean" or e["decl"] in ("?", "lake build") for e in dec_errs):
+        if regen_ok and t not in dec_bad and not any(os.path.basename(e["file"]) not in ("DecTie.lean", "DecTie2.lean", "DecTie3.lean") or e["decl"] in ("?", "lake build") for e in dec_errs):
             ctx.obligation("tie:GojaModel.C05.DecTie." + t, "tie", True, "translated function proved equal to the model")
     for t in ("numSites_ok", "wrappers_ok", "wrappers_canonical", "maxInt_tie", "whitespace_tie",
               "strnum_tie", "includes_tie", "mathsign_tie", "bigint_tie", "parseint_tie"):
